@@ -259,6 +259,10 @@ func c18Run(c *fw.Case) {
 		default:
 			cs = strconv.FormatBool(cond)
 		}
+		if !cond && c.Chance(0.3) {
+			// a NULL condition is not true
+			cs = gen.Pick(c.R, []string{"NULL", "nokey"})
+		}
 		call = fmt.Sprintf("IF(%s, %s, %s)", cs, arg(x), arg(y))
 		want = y
 		if cond {
@@ -301,6 +305,10 @@ func c18Run(c *fw.Case) {
 		}
 	case "changetype.integer":
 		i := c.Intn(2001) - 1000
+		if c.Chance(0.3) {
+			// whole numbers whose conventional float text carries an exponent
+			i = gen.Pick(c.R, []int{1000000, 1234567, -4000000, 123456789012, 1 << 40, 999999, 1000001})
+		}
 		if c.Chance(0.5) {
 			call = fmt.Sprintf("CHANGETYPE(%s, 'integer')", arg(strconv.Itoa(i)))
 		} else {
